@@ -183,8 +183,42 @@ pub fn build(log: &[Rec], cut: &Cut) -> Vfs {
 
 /// Process-crash cut points: after every record, plus torn variants of every write.
 pub fn process_crash_cuts(log: &[Rec]) -> Vec<Cut> {
+    // A run of >= 8 consecutive writes that extend the same file (an unbuffered serializer emitting
+    // a JSON document token by token) is one logical write: it is cut before its first record,
+    // after its first, in the middle, before its last and after its last record (each with the
+    // torn variants of the record there) instead of after every token.
+    let mut skip = vec![false; log.len() + 1];
+    let mut i = 0;
+    while i < log.len() {
+        if let Rec::Write { path, off, data } = &log[i] {
+            let mut j = i;
+            let mut end = *off + data.len() as u64;
+            while let Some(Rec::Write { path: p2, off: o2, data: d2 }) = log.get(j + 1) {
+                if p2 == path && *o2 == end {
+                    end += d2.len() as u64;
+                    j += 1;
+                } else {
+                    break;
+                }
+            }
+            if j - i + 1 >= 8 {
+                let mid = i + (j - i) / 2;
+                for k in i + 1..=j {
+                    if k != i + 1 && k != mid && k != j {
+                        skip[k] = true;
+                    }
+                }
+            }
+            i = j + 1;
+        } else {
+            i += 1;
+        }
+    }
     let mut cuts = Vec::new();
     for i in 0..=log.len() {
+        if skip[i] {
+            continue;
+        }
         // a cut right after a marker or sync adds no new state: skip cuts whose last record changed nothing
         if i > 0 && matches!(log[i - 1], Rec::Marker(_) | Rec::SyncFile(_) | Rec::SyncDir(_)) && i != log.len() {
             continue;
